@@ -1779,6 +1779,18 @@ func (c *RemoteClient) runRequests(ctx context.Context, interrupt <-chan interfa
 			}
 
 		case response := <-c.requestResponseChannel:
+			// Register any requests that are already queued first. A request is always queued
+			// before it is sent, but when both channels are ready select picks one at random, so
+			// the response could otherwise be routed before its request is known.
+			for queued := true; queued; {
+				select {
+				case request := <-c.addRequestsChannel:
+					c.requests = append(c.requests, request)
+				default:
+					queued = false
+				}
+			}
+
 			err := c.handleRequestResponse(ctx, response.message)
 			if response.response != nil {
 				response.response <- err
